@@ -109,6 +109,9 @@ def choose(
         polynomial([q0, q1, q1**2])
 
     """
+    if isinstance(choices, (list, tuple)):
+        # like numpy, the choices broadcast against each other.
+        choices = numpoly.stack(numpoly.align_polynomials(*choices))
     choices = numpoly.aspolynomial(choices)
     a = numpy.asarray(a)
     result = numpy.choose(a, choices=choices.values, out=out, mode=mode)
